@@ -253,4 +253,16 @@ example : (run (cfgMany 24) init ((manyRun 24).take (24 * 3 + 1))).map (fun s =>
       && sameConn (cfgMany 24) j) = some true := by
   decide +kernel
 
+/-- What the seeded change C04-m16 produces (a bound on the notices in flight, the surplus silently skipped) is
+rejected twice: the model cannot let time pass while the 24th notice is pending and deliverable (it is urgent), nor
+drop it (`many_pending_none_droppable`); and the MONITOR, on the log such an implementation would record — the model's
+own log of the 24 cancellations without the 24th `hc`, then some event a second later — raises `peerNotCancelled` for
+exactly the call whose notice was skipped. -/
+theorem skipped_surplus_notice_is_stuck_and_rejected :
+    (run (cfgMany 24) init ((manyRun 24).dropLast)).map (fun s =>
+      (s.notice 23, (step (cfgMany 24) s (.tick 1000)).isSome, (step (cfgMany 24) s (.drop 23)).isSome,
+       mon ⟨cfgMany 24, false⟩ (s.trace ++ [⟨.fin, 0, 1010⟩])))
+      = some (.pending, false, false, some (.peerNotCancelled 23)) := by
+  decide +kernel
+
 end Cancel
